@@ -89,6 +89,9 @@ def run(ctx):
 
     rm.replay_idle_clause(ctx, res, 'C02', 'C02.g', 'every exit of play() resets counter / outputs / playback recording (ordinals restart at 1)')
     rm.interception_flag_clause(ctx, res, 'C02', 'C02.h')
+    rm.replay_body_context_clause(ctx, res, 'C02', 'C02.i')
+    rm.api_leaves_replay_state_clause(ctx, res, 'C02', 'C02.j')
+    rm.options_forwarded_clause(ctx, res, 'C02', 'C02.k')
     # ---------------- C02.a operation
     d = doms['operation']
     fac, deco, cl = roles.closures['operation']
